@@ -1,0 +1,64 @@
+//go:build verif
+
+// Package c14 re-exports, for the C14 verification harness only, the parts of
+// the internal packages the snapshot file format check drives. Compiled only
+// with -tags verif.
+package c14
+
+import (
+	"github.com/lni/dragonboat/v4/internal/rsm"
+	"github.com/lni/dragonboat/v4/internal/utils/dio"
+	"github.com/lni/dragonboat/v4/internal/vfs"
+)
+
+type (
+	// IFS is the file system interface.
+	IFS = vfs.IFS
+	// File is a file of IFS.
+	File = vfs.File
+	// SnapshotWriter writes snapshot files.
+	SnapshotWriter = rsm.SnapshotWriter
+	// SnapshotReader reads snapshot files.
+	SnapshotReader = rsm.SnapshotReader
+	// SnapshotValidator validates chunk streams.
+	SnapshotValidator = rsm.SnapshotValidator
+	// BlockWriter is the block writer of rwv.go.
+	BlockWriter = rsm.BlockWriter
+)
+
+var (
+	// NewMem returns an in-memory file system.
+	NewMem = vfs.NewMemFS
+	// NewSnapshotWriter is rsm.NewSnapshotWriter.
+	NewSnapshotWriter = rsm.NewSnapshotWriter
+	// NewVersionedSnapshotWriter is rsm.newVersionedSnapshotWriter.
+	NewVersionedSnapshotWriter = rsm.VerifNewVersionedSnapshotWriter
+	// NewSnapshotReader is rsm.NewSnapshotReader.
+	NewSnapshotReader = rsm.NewSnapshotReader
+	// NewSnapshotValidator is rsm.NewSnapshotValidator.
+	NewSnapshotValidator = rsm.NewSnapshotValidator
+	// ShrinkSnapshot is rsm.ShrinkSnapshot.
+	ShrinkSnapshot = rsm.ShrinkSnapshot
+	// IsShrunkSnapshotFile is rsm.IsShrunkSnapshotFile.
+	IsShrunkSnapshotFile = rsm.IsShrunkSnapshotFile
+	// GetV2PayloadChecksum is rsm.GetV2PayloadChecksum.
+	GetV2PayloadChecksum = rsm.GetV2PayloadChecksum
+	// GetV2PayloadSize is rsm.getV2PayloadSize.
+	GetV2PayloadSize = rsm.VerifGetV2PayloadSize
+	// CRCOffsets is rsm.getV2CRCOffsetListFromFileSize.
+	CRCOffsets = rsm.VerifCRCOffsets
+	// NewBlockWriter is rsm.NewBlockWriter.
+	NewBlockWriter = rsm.NewBlockWriter
+	// NewBlockReader is rsm.newBlockReader with CRC32IEEE.
+	NewBlockReader = rsm.VerifNewBlockReader
+	// BlockSize is the v2 block size constant.
+	BlockSize = rsm.VerifBlockSize
+	// GetEmptyLRUSession is rsm.GetEmptyLRUSession.
+	GetEmptyLRUSession = rsm.GetEmptyLRUSession
+	// NewCompressor is dio.NewCompressor.
+	NewCompressor = dio.NewCompressor
+	// NewDecompressor is dio.NewDecompressor.
+	NewDecompressor = dio.NewDecompressor
+	// NewCountedWriter is dio.NewCountedWriter.
+	NewCountedWriter = dio.NewCountedWriter
+)
